@@ -364,11 +364,11 @@ def fmt_rep(r):
 # --------------------------------------------------------------------------- behaviour sources
 def pick_opts(i: int, git_every=True, normal=True):
     return {"checkout": CHECKOUT_HOW[i % 4], "switch": SWITCH_HOW[(i // 4) % 3], "unstage": ("unstage", "restore")[(i // 12) % 2],
-            "prune": bool((i // 24) % 2), "git_every": git_every, "normal": normal}
+            "prune": bool((i // 24) % 2), "perms": i % 3, "git_every": git_every, "normal": normal}
 
 
 def git_opts(i: int):
-    return {"checkout": ("checkout", "reset")[i % 2], "switch": ("checkout", "reset")[(i // 2) % 2], "prune": bool((i // 4) % 2), "normal": True}
+    return {"checkout": ("checkout", "reset")[i % 2], "switch": ("checkout", "reset")[(i // 2) % 2], "prune": bool((i // 4) % 2), "perms": i % 3, "normal": True}
 
 
 def graph_behaviours(ctx, cfg: str, name: str, budget):
@@ -702,7 +702,12 @@ def run(ctx):
         "tree and blob ids are computed with hashlib; SHA-1 is treated as injective",
         "C git 2.39.5 is the third opinion: `git status --porcelain=v1 -z -uall --no-renames` and `git write-tree` run on a copy of the index in the same directory "
         "(GIT_OPTIONAL_LOCKS=0) so that git never repairs what dulwich wrote",
-        "single-path stage/unstage are modelled only where no index entry outside the selected paths has to be evicted because of a file/directory conflict",
+        "single-path stage/unstage are modelled only where no index entry outside the selected paths has to be evicted because of a file/directory conflict "
+        "(there WorkTree.stage/unstage leave an index holding both `a` and `a/x`, which git refuses to write as a tree; status is still exact for that index, so it is outside this property), "
+        "where the path is not below a file or link of the directory, and for unstage where neither HEAD nor the index has a directory at the path; reset --hard where no untracked file is in the way; "
+        "branch switches from a state without staged or unstaged changes",
+        "clauses EditEffect (unstage / rm --cached / commit / reset --mixed leave the state the specification's action leads to) and StageComplete / StageAllComplete read 'edit' in the statement as "
+        "the edit git performs for the same command; the specification's version of every action is validated against git's own commands in phase 0 of every run",
         "Linux, case-sensitive file system (tmpfs)",
     ]
     return ctx.finish(exhaustive=False)
